@@ -1626,7 +1626,15 @@ func buildResponses(e *expr.HTTPEndpointExpr, result *expr.AttributeExpr, viewed
 							//   rely on the fact that the required attributes are
 							//   set in the response body (otherwise validation
 							//   would fail).
-							code, helpers, err = unmarshal(resp.Body, resAttr, "body", "v", httpclictx, svcctx)
+							src := resp.Body
+							if viewed {
+								// The body of a viewed result is validated after
+								// the transformation (the view decides which
+								// attributes must be there): the transformation
+								// cannot assume required attributes are set.
+								src = withoutRequired(resp.Body)
+							}
+							code, helpers, err = unmarshal(src, resAttr, "body", "v", httpclictx, svcctx)
 							if err == nil {
 								sd.ClientTransformHelpers = codegen.AppendHelpers(sd.ClientTransformHelpers, helpers)
 							}
@@ -2638,6 +2646,18 @@ func pkgWithDefault(loc *codegen.Location, def string) string {
 		return def
 	}
 	return loc.PackageName()
+}
+
+// withoutRequired returns a deep copy of att in which no attribute is required.
+func withoutRequired(att *expr.AttributeExpr) *expr.AttributeExpr {
+	dup := expr.DupAtt(att)
+	codegen.Walk(dup, func(a *expr.AttributeExpr) error { // nolint: errcheck
+		if a.Validation != nil {
+			a.Validation.Required = nil
+		}
+		return nil
+	})
+	return dup
 }
 
 // unmarshal initializes a data structure defined by target type from a data
